@@ -33,13 +33,33 @@ func held(b []byte, err error, again func()) string {
 	if err != nil {
 		return "err"
 	}
-	func() {
-		defer func() { recover() }()
-		again()
-		again()
-	}()
-	pollute("held", []string{hx(b)})
+	// (for one result in three nothing happens in between, see history.go)
+	if len(b) > 0 && b[0]%3 != 0 {
+		func() {
+			defer func() { recover() }()
+			again()
+			again()
+		}()
+		pollute("held", []string{hx(b)})
+	}
 	return "ok " + hx(b)
+}
+
+// priorVariants calls f once per argument with THAT argument altered and the others as they are (results
+// ignored), right before the observed call: a memo keyed on some of the arguments shows in the observed call.
+func priorVariants(args [][]byte, f func(a [][]byte)) {
+	for i := range args {
+		v := make([][]byte, len(args))
+		copy(v, args)
+		v[i] = other(args[i])
+		if len(args[i]) == 0 {
+			v[i] = []byte{0x41}
+		}
+		func() {
+			defer func() { recover() }()
+			f(v)
+		}()
+	}
 }
 
 // other returns a copy of b with one octet changed (same length)
@@ -94,11 +114,15 @@ func evalC19(op string, args []string) string {
 		}
 		return "ok " + hx(rfc2759ParityPadDESKey(unhx(args[0])))
 	case "ntresp":
+		priorVariants([][]byte{unhx(args[0]), unhx(args[1]), unhx(args[2]), unhx(args[3])}, func(a [][]byte) { rfc2759.GenerateNTResponse(a[0], a[1], a[2], a[3]) })
 		r, err := rfc2759.GenerateNTResponse(unhx(args[0]), unhx(args[1]), unhx(args[2]), unhx(args[3]))
 		return held(r, err, func() {
 			rfc2759.GenerateNTResponse(other(unhx(args[0])), unhx(args[1]), other(unhx(args[2])), unhx(args[3]))
 		})
 	case "authresp":
+		priorVariants([][]byte{unhx(args[0]), unhx(args[1]), unhx(args[2]), unhx(args[3]), unhx(args[4])}, func(a [][]byte) {
+			rfc2759.GenerateAuthenticatorResponse(a[0], a[1], a[2], a[3], a[4])
+		})
 		s, err := rfc2759.GenerateAuthenticatorResponse(unhx(args[0]), unhx(args[1]), unhx(args[2]), unhx(args[3]), unhx(args[4]))
 		if err != nil {
 			return "err"
@@ -124,6 +148,7 @@ func evalC19(op string, args []string) string {
 			rfc3079.GetAsymmetricStartKey(other(unhx(args[0])), rfc3079.KeyLength(n), flag01(args[2]))
 		})
 	case "makekey":
+		priorVariants([][]byte{unhx(args[0]), unhx(args[1])}, func(a [][]byte) { rfc3079.MakeKey(a[0], a[1], flag01(args[2])) })
 		r, err := rfc3079.MakeKey(unhx(args[0]), unhx(args[1]), flag01(args[2]))
 		return held(r, err, func() {
 			// (the shipped MS-CHAPv2 server example derives the receive key and then the send key)
